@@ -762,6 +762,7 @@ type gen struct {
 	rng     *hx.Rng
 	keys    []string
 	flavour []string // per instance
+	vals    []string // value alphabet of a random session
 	dirtyOK bool
 	// generator-side knowledge, only used to place reopen requests at commit points
 	pending []bool
@@ -778,6 +779,10 @@ func (g *gen) key() string {
 func (g *gen) val() string {
 	if g.rng.Chance(1, 30) {
 		return hx.Pick(g.rng, []string{"ee01", "dd01", "cc0102", "dd", "cc"})
+	}
+
+	if g.vals != nil {
+		return hx.Pick(g.rng, g.vals)
 	}
 
 	return hx.Pick(g.rng, plainValues)
@@ -887,6 +892,7 @@ func (g *gen) pathTo(i int, target map[string]string) []string {
 	for len(tasks) > 0 {
 		j := g.rng.Intn(len(tasks))
 		ops = append(ops, tasks[j][0])
+		g.pending[i] = true
 		if tasks[j] = tasks[j][1:]; len(tasks[j]) == 0 {
 			tasks = append(tasks[:j], tasks[j+1:]...)
 		}
@@ -995,6 +1001,12 @@ func genSession(rng *hx.Rng, clusters []cluster, nOps int) []string {
 		}
 		ops = append(ops, merge(rng, hs)...)
 	} else {
+		// random session over a small alphabet (2 long-prefix keys plus 1-3 others, 3 values), so that
+		// different instances and time points meet in equal contents by chance
+		ks := append([]string(nil), g.keys[2:]...)
+		shuffle(rng, ks)
+		g.keys = append(g.keys[:2:2], ks[:rng.Range(1, 3)]...)
+		g.vals = []string{hx.Pick(rng, plainValues), hx.Pick(rng, plainValues), hx.Pick(rng, []string{"-", "nil", "61"})}
 		for len(ops) < nOps {
 			ops = append(ops, g.randomOp(rng.Intn(nInst))...)
 		}
